@@ -125,7 +125,7 @@ def run_rounds(sc, root, helper):
             marks = [len(ca.log) for ca in cas]
             cfg_path = write_cfg(d, sc, cas, contacts, kt, eab=what in ("first-with-binding", "binding-added"))
             res = vlib.probe([{"op": "concurrent_attempts", "path": cfg_path, "threads": sc["threads"],
-                               "timeout_ms": 60000}], timeout=120)[0]
+                               "timeout_ms": 60000, "max_ms": 600000}], timeout=700)[0]
             rounds.append({"what": what, "res": res, "index": len(rounds),
                            "ca_logs": [ca.log[m:] for ca, m in zip(cas, marks)]})
     finally:
